@@ -75,23 +75,27 @@ def run(rep: vk.Report):
     special = {"0": 0, "+1e16": 0, "-1e16": 0}
     path_diffs = 0
     paths = {}
-    for i in range(n):
+    fixed = common.vectorised_worklist()
+    for i in range(n + len(fixed)):
         r = random.Random(rng.random())
         g = gen.Gen(r, profile="smooth", pool=gen.Pool(r, with_matrices=(r.random() < 0.3)))
         try:
-            e = singular_exprs(g, r)
+            e = fixed[i][0] if i < len(fixed) else singular_exprs(g, r)
             Ss = ser.Ser()
             te = Ss.expr(e)
         except Exception:
             continue
-        vs = sorted(e.get_variables(), key=lambda v: v.name)
-        from optyx.problem import _variable_order_key
-        vs.sort(key=_variable_order_key)
-        V = list(vs)
-        if r.random() < 0.4:
-            V = V + [Variable("extra0")]
-        if r.random() < 0.3:
-            r.shuffle(V)
+        if i < len(fixed):
+            V = list(fixed[i][1])
+        else:
+            vs = sorted(e.get_variables(), key=lambda v: v.name)
+            from optyx.problem import _variable_order_key
+            vs.sort(key=_variable_order_key)
+            V = list(vs)
+            if r.random() < 0.4:
+                V = V + [Variable("extra0")]
+            if r.random() < 0.3:
+                r.shuffle(V)
         names = [v.name for v in V]
         C._compile_cached.cache_clear()
         with warnings.catch_warnings():
